@@ -152,6 +152,10 @@ pub struct Call {
     /// diagnostic knob (C17 discriminator): the keyword set in force is frozen to the default
     #[serde(default)]
     pub freeze_version: bool,
+    /// diagnostic knob (C17 discriminator): shipped memo key, but hits on entries stored under other
+    /// effective left-recursion flags are recomputed
+    #[serde(default)]
+    pub suppress_flag_stale: bool,
     pub faults: Vec<Fault>,
 }
 
@@ -172,6 +176,7 @@ impl Call {
             memo_capacity: None,
             flag_aware: false,
             freeze_version: false,
+            suppress_flag_stale: false,
             faults: vec![],
         }
     }
